@@ -70,7 +70,7 @@ fn dce_block_with_live(
                                 live.insert(u.clone());
                             }
                             // Keep side effects before the declaration in final order
-                            out.push(ast::Stmt::Expr(v));
+                            out.push(effect_only_stmt(v));
                         }
                         // Keep declaration without initializer
                         out.push(ast::Stmt::VarDecl {
@@ -95,7 +95,7 @@ fn dce_block_with_live(
                         for u in &used_rhs {
                             live.insert(u.clone());
                         }
-                        out.push(ast::Stmt::Expr(v));
+                        out.push(effect_only_stmt(v));
                     }
                 }
             }
@@ -116,7 +116,7 @@ fn dce_block_with_live(
                         for u in &used_rhs {
                             live.insert(u.clone());
                         }
-                        out.push(ast::Stmt::Expr(value));
+                        out.push(effect_only_stmt(value));
                     }
                 }
             }
@@ -609,8 +609,12 @@ fn expr_has_side_effects(e: &ast::Expr) -> bool {
             expr_has_side_effects(array) || expr_has_side_effects(index)
         }
         ast::Expr::UnaryOp { expr, .. } => expr_has_side_effects(expr),
-        ast::Expr::BinaryOp { lhs, rhs, .. } => {
-            expr_has_side_effects(lhs) || expr_has_side_effects(rhs)
+        ast::Expr::BinaryOp { op, lhs, rhs, .. } => {
+            // Integer division panics on a zero divisor, so it must survive even when
+            // its result is unused (unless the divisor is a non-zero literal).
+            (matches!(op, ast::GoBinaryOp::Div) && division_may_fail(lhs, rhs))
+                || expr_has_side_effects(lhs)
+                || expr_has_side_effects(rhs)
         }
         ast::Expr::Cast { expr, .. } => expr_has_side_effects(expr),
         ast::Expr::StructLiteral { fields, .. } => {
@@ -625,6 +629,30 @@ fn expr_has_side_effects(e: &ast::Expr) -> bool {
         | ast::Expr::Int { .. }
         | ast::Expr::Float { .. }
         | ast::Expr::String { .. } => false,
+    }
+}
+
+/// Statement that evaluates `e` only for its effects. Go rejects a bare non-call
+/// expression statement, so anything but a call is kept as `_ = e`.
+fn effect_only_stmt(e: ast::Expr) -> ast::Stmt {
+    match e {
+        ast::Expr::Call { .. } | ast::Expr::Block { .. } => ast::Stmt::Expr(e),
+        other => ast::Stmt::Assignment {
+            name: "_".to_string(),
+            value: other,
+        },
+    }
+}
+
+fn division_may_fail(lhs: &ast::Expr, rhs: &ast::Expr) -> bool {
+    use crate::go::goty::GoType;
+    let is_float = |e: &ast::Expr| matches!(e.get_ty(), GoType::TFloat32 | GoType::TFloat64);
+    if is_float(lhs) || is_float(rhs) {
+        return false;
+    }
+    match rhs {
+        ast::Expr::Int { value, .. } => value.parse::<i128>().map(|v| v == 0).unwrap_or(true),
+        _ => true,
     }
 }
 
